@@ -1119,6 +1119,21 @@ def propagate_toplevel(formula: FNode, env: Optional["pysmt.environment.Environm
             else:
                 sigma[k] = v
 
+    # A replacement that is bound by a quantifier of the formula would be
+    # captured there: such a variable is not propagated
+    bound = set()
+    seen = set()
+    stack = [formula]
+    while stack:
+        node = stack.pop()
+        if node in seen:
+            continue
+        seen.add(node)
+        if node.is_quantifier():
+            bound.update(node.quantifier_vars())
+        stack.extend(node.args())
+    sigma = dict((k, v) for k, v in sigma.items() if v not in bound)
+
     res = formula.substitute(sigma)
     if preserve_equivalence:
         res = mgr.And(res, mgr.And([mgr.Equals(k, sigma[k]) for k in sigma]))
